@@ -12,6 +12,7 @@ CONSTANTS
  AllowWith = TRUE
  AllowVars = TRUE
  MaxUses = 2
+ OldWith = FALSE
  RestoreOwn = FALSE
 INVARIANT DriftFree
 POSTCONDITION AcceptedLinear
